@@ -109,6 +109,11 @@ def gen(seed: int, tier: str) -> dict[str, Any]:
            "oneshot_cb": rng.choice([None, None, "CONNECTED", "DISCONNECTED", "CONNECTING"]),
            # a listener registered between the two recording callbacks raises when it hears of this state
            "raising_cb": rng.choice([None, None, None, "CONNECTED", "DISCONNECTED", "CONNECTING"])}
+    if transport in ("tcp", "secure") and mode == "bare" and rng.random() < 0.08:
+        # the TCP connection dies while the very first connect() still waits for its ConnectResponse: that attempt fails by
+        # itself - nothing may go on connecting behind the caller's back after connect() raised
+        cfg["loss_in_first_connect"] = rng.choice([0.05, 0.3, 0.8])
+        gwscript["connect"] = [{"k": "drop"}] + (gwscript.get("connect") or [None])[1:]
     if rng.random() < 0.15 and ops:
         # threaded mode seen from the connection's side: state reports are handed to the main loop with
         # call_soon_threadsafe and applied there in order - later, while the main loop is busy (windows around the faults)
@@ -241,6 +246,14 @@ def run(plan: dict[str, Any]) -> dict[str, Any]:
                     raise RuntimeError("scripted failure of a connection state listener")
             xknx.connection_manager.register_connection_state_changed_cb(raising)
         xknx.connection_manager.register_connection_state_changed_cb(mk_cb(1, xknx))
+        if cfg.get("loss_in_first_connect"):
+            def lose():
+                for c_ in net.tcp_conns:
+                    if c_.open:
+                        c_.server_close(None)
+                        gw.on_close(c_)
+                        R.extra_faults["tcp_lost_during_first_connect"] += 1
+            loop.after(cfg["loss_in_first_connect"], lose, label="op")
         try:
             if tunnel is not None:
                 await tunnel.connect()
